@@ -148,7 +148,17 @@ class StubConfig:
     def __getattr__(self, name):
         if name.startswith('_'):
             raise AttributeError(name)
-        return object()
+        return StubOpaque(name)
+
+
+class StubOpaque:
+    """An environment value the contract leaves opaque (e.g. a configured regex whose matches are environment values):
+    the real code cannot use it, so a run that touches it is not a replay of the counterexample."""
+    def __init__(self, name):
+        object.__setattr__(self, '_name', name)
+
+    def __getattr__(self, name):
+        raise NotConstructible(f'opaque environment value {object.__getattribute__(self, "_name")} used ({name})')
 
 
 class StubMatch:
@@ -268,6 +278,16 @@ def main():
         else:
             result = fn(**args)
     except TimeoutError as e:
+        exc = e
+    except NotConstructible as e:
+        signal.alarm(0)
+        print('not replayable at function level:', e)
+        sys.exit(4)
+    except TypeError as e:
+        if 'first argument must be a string or compiled pattern' in str(e) or 'StubOpaque' in str(e):
+            signal.alarm(0)
+            print('not replayable at function level: an opaque environment pattern reached the regex engine:', e)
+            sys.exit(4)
         exc = e
     except Exception as e:
         exc = e
